@@ -4,6 +4,7 @@ import (
 	"fmt"
 	"testing"
 
+	"github.com/hashicorp/go-argmapper"
 	"github.com/hashicorp/go-argmapper/verifharness/engine"
 )
 
@@ -54,6 +55,12 @@ func evalC01(c *engine.Case) engine.Verdict {
 				}
 			}
 		case "redefine":
+			if c.HasFilter {
+				args = append(args, argmapper.FilterInput(typeFilter(c.Filter)))
+				if rep == 0 {
+					v.Class("redefine-with-input-filter")
+				}
+			}
 			_, rerr, rpanic, _, ro := w.RedefineCall(target, args)
 			o = ro
 			if rpanic != "" {
@@ -134,6 +141,24 @@ func genC01(g engine.G) *engine.Case {
 		c.Entry = "call"
 	case k < 8:
 		c.Entry = "redefine"
+		if g.Pct(40) {
+			c.Sc, c.Filter = engine.GenRedefineFocus(g)
+			sc = c.Sc
+			c.HasFilter = true
+		} else if g.Pct(60) {
+			// an input filter over a drawn subset of the types in play: the
+			// supplied values' types (leaves) are always useful to permit
+			c.HasFilter = true
+			for _, in := range sc.Inputs {
+				if g.Pct(70) {
+					c.Filter = append(c.Filter, in.L.Type)
+				}
+			}
+			for i, n := 0, g.Int(0, 3); i < n; i++ {
+				c.Filter = append(c.Filter, g.Int(0, engine.NumTypes-1))
+			}
+			c.Filter = uniqInts(c.Filter)
+		}
 	default:
 		// Convert needs a single type-only parameter without subtype
 		c.Entry = "convert"
